@@ -671,3 +671,12 @@ func newSegment(sg Segment) restli.ResourcePathSegment {
 
 // QueryEscape is the library's own escaper for values of query parameters.
 func QueryEscape(s string) string { return restlicodec.Ror2QueryEscape(s) }
+
+// EntityPath is prefix + key, the key encoded by the library's own path writer (the way generated ResourcePath()
+// implementations do it).
+func EntityPath(prefix, key string) string {
+	w := restlicodec.NewRor2PathWriter()
+	w.RawPathSegment(prefix)
+	w.WriteString(key)
+	return w.Finalize()
+}
